@@ -274,6 +274,21 @@ def install_std_extras(eng):
                 outs.append(r)
             return outs
         return h
+    # derived PartialEq of a field-less enum (e.g. `opts.backup == Backup::None` with the enum defined in another crate): discriminants
+    def s_enum_eq(eng, st, callee, args, dty):
+        a, b = deref_ref(eng, st, args[0]), deref_ref(eng, st, args[1])
+        while isinstance(a, RefV):
+            a = deref_ref(eng, st, a)
+        while isinstance(b, RefV):
+            b = deref_ref(eng, st, b)
+        for v in (a, b):
+            if isinstance(v, AggV) and v.fields:
+                raise EngineAbort("PartialEq on an enum value with fields: %s" % callee)
+            if isinstance(v, OpaqueV) and not eng.enum_of(v.ty):
+                raise EngineAbort("PartialEq on a non-enum value: %s" % callee)
+        eq = eng.discriminant(st, a).t == eng.discriminant(st, b).t
+        return Outcome(BoolV(eq if callee.endswith("eq") else z3.Not(eq)))
+    S(r"^<\w+ as PartialEq>::(eq|ne)$", s_enum_eq)
     S(r"^Option::<.*>::is_some$", per_variant(lambda e, st, c, v, a: Outcome(BoolV(v.vname == "Some"))))
     S(r"^Option::<.*>::is_none$", per_variant(lambda e, st, c, v, a: Outcome(BoolV(v.vname == "None"))))
     S(r"^Result::<.*>::is_ok$", per_variant(lambda e, st, c, v, a: Outcome(BoolV(v.vname == "Ok"))))
